@@ -1,7 +1,7 @@
 (* Entry point of the extracted runner: [run fn arg].  The Python side finds function
    numbers by parsing the "(* FN name *)" comments below. *)
 From Coq Require Import ZArith List.
-From PyCraft Require Import Base.Res Base.Sx Model.VarInt Model.Versions Model.Position Model.SignedHex Model.Sha1 Model.Tables Model.FieldTypes Model.Nbt Model.Prog Model.CustomPackets.
+From PyCraft Require Import Base.Res Base.Sx Model.VarInt Model.Versions Model.Position Model.SignedHex Model.Sha1 Model.Tables Model.FieldTypes Model.Nbt Model.Prog Model.CustomPackets Spec.ProtocolTable.
 Import ListNotations.
 Open Scope Z_scope.
 
@@ -72,6 +72,16 @@ Fixpoint of_value (fuel : nat) (v : value) : sx :=
     | VTup l => L [I 6; L (map (of_value f) l)]
     end
   end.
+Fixpoint of_ftype (t : ftype) : sx :=
+  match t with
+  | TBool => I 0 | TUByte => I 1 | TByte => I 2 | TShort => I 3 | TUShort => I 4 | TInt => I 5 | TLong => I 6
+  | TULong => I 7 | TFloat => I 8 | TDouble => I 9 | TVarInt => I 10 | TVarLong => I 11 | TString => I 12
+  | TUUID => I 13 | TAngle => I 14 | TShortBytes => I 16 | TVarBytes => I 17 | TTrailing => I 18
+  | TPosition => I 19 | TNBT => I 20
+  | TFixed b n => L [I 15; of_ftype b; I n]
+  | TArray l e => L [I 21; of_ftype l; of_ftype e]
+  | TCustom c => L [I 22; I c]
+  end.
 Definition sx_cctx (s : sx) : cctx :=
   {| c_pos_zy := sx_bool (sx_nth s 0); c_rec_new := sx_bool (sx_nth s 1); c_pitch_float := sx_bool (sx_nth s 2) |}.
 Definition sx_defn (s : sx) : defn := map (fun t => (0, sx_ftype 12 t)) (sx_list s).
@@ -134,5 +144,10 @@ Definition run (fn : Z) (a : sx) : sx :=
   | 46 => (* FN dec_prog : (cctx which flags bytes) *)
       of_res of_vsrest (dec_prog (sx_cctx (sx_nth a 0)) nbt_split (custom_prog (sx_z (sx_nth a 1)) (map sx_bool (sx_list (sx_nth a 2))))
                                  (sx_zs (sx_nth a 3)))
+  | 50 => (* FN spec_packet : (packet proto) -> (exists table id layout) *)
+      let p := sx_z (sx_nth a 0) in let v := sx_z (sx_nth a 1) in
+      L [of_bool (spec_exists p v); I (spec_table p); I (spec_id p v); L (map of_ftype (spec_layout p v))]
+  | 51 => (* FN spec_releases : () *)
+      L [of_zs spec_releases; of_zs core_packets]
   | _ => L [I 99]
   end.
